@@ -213,13 +213,14 @@ class Conn(object):
 class Req(object):
     """One API request as the harness sees it."""
     __slots__ = ('idx', 'kind', 'addr', 'conn', 'args', 'd', 'ret', 'msgId', 'fires', 'tx', 'rel_tx', 'acks',
-                 'call_step', 'call_phase', 'exc')
+                 'call_step', 'call_phase', 'exc', 'exc_mro')
 
     def __init__(self, idx, kind, addr, conn, args, step, phase):
         self.idx, self.kind, self.addr, self.conn, self.args = idx, kind, addr, conn, args
         self.d = None
         self.ret = None               # 'deferred' | 'raise' | 'value'
         self.exc = None               # exception class name if raised
+        self.exc_mro = ()             # class names in the MRO of the exception raised / failed with
         self.msgId = None
         self.fires = []               # (step, 'ok'|'err', value canon | exc class name, is_loss_reason)
         self.tx = []                  # (step, conn idx, dup, msgId on the wire)
@@ -447,6 +448,7 @@ class World(object):
             d = fn(r)
         except Exception as e:           # noqa
             r.ret, r.exc = 'raise', type(e).__name__
+            r.exc_mro = tuple(k.__name__ for k in type(e).__mro__)
             self.obs.append(('ret', r.idx, 'raise', r.exc))
             return r
         if isinstance(d, defer.Deferred):
@@ -467,6 +469,7 @@ class World(object):
                         if c2.addr == r.addr and c2.idx > r.conn and c2.loss_reason is not None and \
                                 (f is c2.loss_reason or f.value is c2.loss_reason.value):
                             isr = True
+                r.exc_mro = tuple(k.__name__ for k in f.type.__mro__)
                 r.fires.append((w.step, 'err', f.type.__name__, isr))
                 w.obs.append(('fire', r.idx, 'err', f.type.__name__, isr))
             ok._verif_rec = err._verif_rec = 'deferred-recorder'
@@ -596,7 +599,7 @@ class World(object):
     def ev_call(self, a, name, args=(), kwargs=None):
         """Free-form API call (C20 / C14 probes)."""
         c = self.conn(a)
-        self._api(name, c, dict(args=repr(args), kwargs=repr(kwargs)),
+        self._api('call:' + name, c, dict(args=repr(args)[:200], kwargs=repr(kwargs)[:200]),
                   lambda r: getattr(c.proto, name)(*args, **(kwargs or {})))
 
     # -- broker -> client
@@ -695,6 +698,10 @@ class World(object):
         if nd is not None and self.clock.rightNow + dt >= nd - 1e-9:
             raise RuntimeError('wait(%r) would cross a deadline' % dt)
         self.clock.rightNow += dt
+
+    def ev_probe(self, *inner):
+        """A one-step look-ahead: the wrapped event is applied, the scenario does not expand further."""
+        getattr(self, 'ev_' + inner[0])(*inner[1:])
 
     def ev_setid(self, a, v):
         """Place the factory's identifier counter (public attribute) -- stands for the thousands of completed
